@@ -60,6 +60,8 @@ const (
 	KMPAbort  = "mp-abort"    // AbortMultipartInsert
 	KMPFinal  = "mp-finalize" // Finalize of the restored checkpoint root
 	KProbe    = "probe"       // a metadata call that the model expects to fail (Probe says which)
+	KCompact  = "compact"     // NodeDB.Compact()
+	KReopen   = "reopen"      // close and reopen the (on-disk) database
 )
 
 // WOp is one tree write.
@@ -139,6 +141,10 @@ func (o Op) String() string {
 		return "mp-abort"
 	case KProbe:
 		return fmt.Sprintf("probe(%s v%d)", o.Probe, o.Ver)
+	case KCompact:
+		return "compact"
+	case KReopen:
+		return "reopen"
 	}
 	return o.Kind
 }
@@ -163,6 +169,8 @@ type History struct {
 	Checkpoints []CPSpec `json:"checkpoints,omitempty"`
 	// BadgerOnly is set when some op is badger-only.
 	BadgerOnly bool `json:"badger_only,omitempty"`
+	// OnDisk is set when the history has reopen/compact ops and needs an on-disk database.
+	OnDisk bool `json:"on_disk,omitempty"`
 }
 
 // OpStrings renders the op list (for witnesses / reports).
@@ -182,6 +190,11 @@ type GenConfig struct {
 	BadgerOnly bool // allow same-version child chains
 	Probes     bool // include failing metadata probes
 	Small      bool // fewer candidates / pairs (C07: keeps the case count down)
+	// Restart closes and reopens the (on-disk) database after most versions, so that the LSM
+	// tree consists of several tables, keeps the prune lag >= 2 (version v+2 is finalized when
+	// v is pruned) and calls NodeDB.Compact() after prunes: what the storage engine may
+	// discard at compaction depends on the discard timestamp set by Prune.
+	Restart bool
 	// Clean avoids the shapes that are already known to damage the hashed badger backend
 	// (DESIGN.md section 6 D4/D5 and the committed empty root), so that such histories run to
 	// their end on badger too: no candidate re-creates a pair that its parent already has, IO
@@ -383,6 +396,11 @@ func Generate(rng *rand.Rand, cfg GenConfig) *History {
 		cfg.MaxLag = 1
 	}
 	lag := 1 + rng.IntN(cfg.MaxLag)
+	if cfg.Restart {
+		lag = 2 + rng.IntN(2)
+		h.OnDisk = true
+	}
+	reopens := 0
 	start := uint64([]int{0, 1, 1, 3}[rng.IntN(4)])
 	if cfg.Restore {
 		start = 1 // the multipart version 0 means "none"
@@ -541,16 +559,27 @@ func Generate(rng *rand.Rand, cfg GenConfig) *History {
 			h.Ops = append(h.Ops, Op{Kind: KProbe, Probe: "prune", Ver: earliest + 1})
 		}
 
+		// Restart the node between versions (the memtable becomes a new table).
+		if cfg.Restart && rng.IntN(8) != 0 {
+			h.Ops = append(h.Ops, Op{Kind: KReopen})
+			reopens++
+		}
 		// Prune with the chosen lag; sometimes fall behind and catch up later.
-		if rng.IntN(5) != 0 {
+		pruned := false
+		if rng.IntN(5) != 0 || (cfg.Restart && i == cfg.Versions-1) {
 			for earliest+uint64(lag) <= latest {
 				h.Ops = append(h.Ops, Op{Kind: KPrune, Ver: earliest})
 				earliest++
+				pruned = true
 			}
+		}
+		// Compact in the same process lifetime as the prune (a reopen resets the discard timestamp).
+		if cfg.Restart && pruned && (rng.IntN(2) == 0 || i == cfg.Versions-1) {
+			h.Ops = append(h.Ops, Op{Kind: KCompact})
 		}
 		ver++
 	}
-	_ = hasLatest
+	_, _ = hasLatest, reopens
 	return h
 }
 
